@@ -150,14 +150,7 @@ def flagsTok (f : Flags) : String :=
     member it is handed; what it shows is compared with the members of the frame minus the three flags. -/
 def handleCallDecOpen (j : J) (obs : List String) : String :=
   let isFlag (k : String) : Bool := k == "oneway" || k == "more" || k == "upgrade"
-  let res : Option (Members × Flags) := match j with
-    | .obj ms => match splitFlags ms with
-      | some (rest, o, m, u) =>
-        if count "method" rest == 1 && (match lookup "method" rest with | some (.str "x.F" _) => true | _ => false) then
-          some (rest, { oneway := o.getD false, more := m.getD false, upgrade := u.getD false })
-        else none
-      | none => none
-    | _ => none
+  let res : Option (Members × Flags) := decodeCallOpen "x.F" j
   let m := match res with
     | some (rest, f) => "ok " ++ hexOfString (canon true (.obj rest)) ++ " " ++ flagsTok f
     | none => "json"
